@@ -353,7 +353,7 @@ func corrSubsampleClamp(c *vkit.Collector, rng *vkit.Rng, budget int) {
 		c.Class("polyline:repeated-vertex/negative-tolerance")
 		c.Eval(fmt.Sprintf("clamp:%d:%g:%d", len(pl), tol, k), true)
 		if fmt.Sprint(idx) != fmt.Sprint(idx0) {
-			c.Violate("Polyline.SubsampleVertices.clamp", fmt.Sprintf("tolerance %g gives %v, tolerance 0 gives %v", tol, idx, idx0), map[string]interface{}{"polyline": pl, "tolerance": tol})
+			c.Violate("Polyline.SubsampleVertices.clamp", fmt.Sprintf("tolerance %g gives %v, tolerance 0 gives %v", tol, idx, idx0), map[string]interface{}{"polyline": pl, "tolerance": fmt.Sprint(tol)})
 		}
 		c.Check(fmt.Sprintf("SubsampleVertices(clamp) tol=%g #%d", tol, k), someEq("Z.eqb", vkit.App("SubsampleVertices", ptList(pl), vkit.F(tol)), zList(idx)))
 	}
